@@ -311,7 +311,13 @@ func (gen *generator) irGlobal(new *ir.Global, old *ast.GlobalDecl) error {
 		case *ast.Comdat:
 			// When comdat name is omitted, the global name is used as an implicit
 			// comdat name.
-			name := new.Name()
+			//
+			// Note, new.Name() returns numeric names in quotes (e.g. `"42"`), which
+			// is the display form and not the name the comdat is defined under.
+			name := new.GlobalName
+			if new.IsUnnamed() {
+				name = new.Name()
+			}
 			if n, ok := globalField.Name(); ok {
 				name = comdatName(n)
 			}
@@ -578,7 +584,13 @@ func (gen *generator) irFuncHeader(new *ir.Func, old ast.FuncHeader) error {
 		case *ast.Comdat:
 			// When comdat name is omitted, the function name is used as an implicit
 			// comdat name.
-			name := new.Name()
+			//
+			// Note, new.Name() returns numeric names in quotes (e.g. `"42"`), which
+			// is the display form and not the name the comdat is defined under.
+			name := new.GlobalName
+			if new.IsUnnamed() {
+				name = new.Name()
+			}
 			if n, ok := funcHdrField.Name(); ok {
 				name = comdatName(n)
 			}
